@@ -47,7 +47,7 @@ def run(ctx):
             if k in ('vec', 'plane'):
                 key = json.dumps(c['v'])
                 if key not in boxes:
-                    boxes[key] = am.Box(vects=np.array(c['v'], dtype=float) / Q)
+                    boxes[key] = am.Box(vects=np.array(c['v'], dtype=float) / Q, origin=[[0.0, 0.0, 0.0], [1.5, -2.25, 0.75]][len(boxes) % 2])   # directions do not depend on the origin
                 box = boxes[key]
             if k == 'vec':
                 y = c['y']
@@ -111,7 +111,7 @@ def run(ctx):
     rng = np.random.default_rng(ctx.seed)
     recs = []
     nrun = 120 if quick else 1500
-    hexbox = am.Box.hexagonal(3.0, 5.0)
+    hexbox = am.Box(vects=am.Box.hexagonal(3.0, 5.0).vects, origin=[-1.25, 0.5, 2.0])     # directions do not depend on the origin
     for i in range(nrun):
         L = rng.integers(2, 9, 3) * 2
         tilt = [int(rng.integers(-L[0], L[0] + 1)) if rng.random() < .7 else 0 for _ in range(3)]
@@ -125,13 +125,13 @@ def run(ctx):
             if round(np.linalg.det(Pm)) < 0:
                 Pm[:, 0] *= -1
             v = (np.array(v) @ Pm).tolist()
-        box = am.Box(vects=np.array(v, dtype=float) / Q)
-        shape = [(), (6,), (2, 3)][i % 3]
+        box = am.Box(vects=np.array(v, dtype=float) / Q, origin=(rng.integers(-8, 9, 3) / 4.0 if rng.random() < .6 else np.zeros(3)))
+        shape = [(), (6,), (2, 3)][int(rng.integers(0, 3))]
         n = int(np.prod(shape)) if shape else 1
         Y = rng.integers(-6, 7, (n, 3))
         Y[(Y == 0).all(axis=1)] = [1, 0, -2]
         arg = Y.reshape(shape + (3,))
-        arg = arg.tolist() if i % 2 else arg
+        arg = arg.tolist() if rng.random() < .5 else arg
         base = {'v': v, 'q': Q, 'tag': 'run%d' % i}
         try:
             x = np.reshape(miller.vector3to4(arg), (n, 4))
